@@ -101,6 +101,7 @@ type replayFile struct {
 	ShrinkInts   []string        `json:"shrink_ints"`
 	Trace        []string        `json:"trace,omitempty"`
 	Args         []string        `json:"command_line,omitempty"`
+	Prelude      int             `json:"prelude,omitempty"` // preceding seeds to run first
 }
 
 var shrinkArrays = []string{"workload.source.tables", "workload.source.tables.*.rows", "workload.ids"}
@@ -1363,6 +1364,12 @@ func TestVerifToolsim(t *testing.T) {
 				m := map[string]string{"toolsim": "sim", "toolsim-free": "free", "toolsim-binary": "binary"}[rf.Engine]
 				if m == "" {
 					m = "sim"
+				}
+				for k := rf.Prelude; k >= 1 && m != "binary"; k-- {
+					if rf.Seed >= uint64(k) {
+						pw, pfp, pmp, pms := genWork(rf.Seed - uint64(k))
+						runOne(t, &pw, pfp, pmp, pms, rf.Seed-uint64(k), nil, false, false, filepath.Join(job.Scratch, "prelude"), m, "")
+					}
 				}
 				rr := runOne(t, &rf.Workload, rf.Faults, mp, rf.MapSeed, rf.Seed, rf.Tape, true, true, filepath.Join(job.Scratch, "cand"), m, job.Extra["binary"])
 				if rr.violation != nil {
